@@ -760,8 +760,11 @@ parse_btt(vbi_decoder *vbi, uint8_t *raw, int packet)
 				ps = cache_network_page_stat (vbi->cn,
 							      0x100 + index);
 
+				/* Skip this entry only: leaving the loop
+				   here would not advance index and assign
+				   the entries which follow to other pages. */
 				if ((code = vbi_unham8 (*raw++)) < 0)
-					break;
+					continue;
 
 				switch (code) {
 				case BTT_SUBTITLE:
